@@ -70,12 +70,42 @@ def expiry_rules(ctx, tag, side, table):
     pg, pbb, pt = pe[0]
     pe_term = ('call', pg.id, pbb)
     is_expired_item = lambda r, p: P.unbound(r) == pe_term and (('v', 'Some'), ('f', 0)) == tuple(x for x in norm_path(p) if x[0] in 'vf')[2:4] or (P.unbound(r) == pe_term and ('v', 'Some') in p)
-    rms = [(g, bb, t) for g in bodies for bb, t in g.calls() if callee_is(t, 'HashMap::remove', 'HashMap::remove_entry')]
+    from .common import MAP_REMOVALS, removal_key_terms
+    rms = [(g, bb, t) for g in bodies for bb, t in g.calls() if callee_is(t, *MAP_REMOVALS)]
     R.ob(tag + '.expiry', (side + ' table expiry', 'removes the expired entry'), len(rms) == 1, 'expiry removes one map entry', [g.loc(t) for g, _, t in rms] or [exp.loc(exp.d)])
     for g, bb, t in rms:
-        kr = P.root(P.operand(g, t['args'][1], at=bb), through_params=True, callers={b.id for b in bodies})   # a shared private helper is judged in the expiry's own calling context
+        kr = [x for kt in removal_key_terms(P, g, bb, t) for x in P.root(kt, through_params=True, callers={b.id for b in bodies})]   # a shared private helper is judged in the expiry's own calling context
         ok = bool(kr) and all(P.unbound(r) == pe_term and ('v', 'Some') in p for r, p in kr)
         R.ob(tag + '.expiry', (side + ' table expiry', 'removal keyed by the expired timer\'s id'), ok,
              'the entry removed on expiry is the one whose timer fired (key = the Expired item\'s value, on the Some edge)', [g.loc(t)],
              str([P.describe(r) + str(list(norm_path(p))) for r, p in kr]))
+    # a fired timer never leaves its entry behind: if the lookup is an `entry(id)`, the Occupied edge reaches the entry's removal on every path (the
+    # timer is gone, so an entry kept here has no timer any more — nothing would ever resolve or reclaim it, and its stored key would dangle)
+    for g in bodies:
+        for bb, t in g.calls():
+            if not callee_is(t, 'HashMap::entry'):
+                continue
+            et = ('call', g.id, bb)
+            rem_blocks = set()
+            for b2, t2 in g.calls():
+                if callee_is(t2, 'hash_map::OccupiedEntry::remove', 'hash_map::OccupiedEntry::remove_entry'):
+                    if any(P.unbound(x) == et for x, _ in P.root(P.operand(g, t2['args'][0], at=b2))):
+                        rem_blocks.add(b2)
+            occ = None
+            for i, b in enumerate(g.blocks):
+                if b['cleanup'] or b['term']['k'] != 'switch' or b['term']['discr']['k'] not in ('copy', 'move'):
+                    continue
+                tt = P.operand(g, b['term']['discr'], at=i)
+                if tt[0] == 'discr' and any(P.unbound(x) == et for x, _ in P.root(tt[1], inline=False)):
+                    from .common import variant_values
+                    ety = None
+                    for st_ in b['stmts']:
+                        if st_['rv']['k'] == 'discr':
+                            ety = st_['rv'].get('ty')
+                    vals = variant_values(F, ety, ['Occupied']) if ety else None
+                    if vals:
+                        occ = dict((v, x) for v, x in b['term']['targets']).get(vals[0], b['term']['otherwise'])
+            ok = occ is not None and bool(rem_blocks) and cfg.all_paths_pass(g, occ, cfg.exits(g), rem_blocks)
+            R.ob(tag + '.expiry', (side + ' table expiry', 'a fired timer\'s entry is always removed'), ok,
+                 'once the entry of the fired timer was found it is removed on every path: no entry is left without a timer', [g.loc(t)])
     return exp
